@@ -995,8 +995,8 @@ Theorem add_entries_wf K w entry source f override w' :
 Proof.
   intros W H G. unfold add_entries in H.
   destruct (String.eqb entry ""); [discriminate|].
-  set (ov := if negb (smem (n_header (w_names w)) entry) && override then false else override) in *.
-  destruct (smem (n_hdr (w_names w)) entry && negb ov); [discriminate|].
+  set (ov := if negb (smem (n_hdr (w_names w)) (lower entry)) && override then false else override) in *.
+  destruct (smem (n_hdr (w_names w)) (lower entry) && negb ov); [discriminate|].
   destruct W as [Wi Wd Wp Wl Wn].
   destruct ov eqn:Eov.
   - (* override *)
@@ -1004,7 +1004,7 @@ Proof.
     destruct (sget (n_hdr (w_names w)) (lower entry)) as [tgt|] eqn:Et; [|discriminate].
     inversion H. subst w'. clear H. cbn [w_data w_index w_ri w_ci].
     assert (Eo : override = true).
-    { unfold ov in Eov. destruct (negb (smem (n_header (w_names w)) entry) && override); [discriminate|exact Eov]. }
+    { unfold ov in Eov. destruct (negb (smem (n_hdr (w_names w)) (lower entry)) && override); [discriminate|exact Eov]. }
     destruct (G tgt Eo eq_refl) as [G1 G2].
     assert (Em : map fst (set_col f src tgt (w_data w)) = map fst (w_data w)).
     { unfold set_col. rewrite map_map. reflexivity. }
